@@ -1006,11 +1006,53 @@ func (c *Conn) closeWithError(err error) error {
 			c.rTimer = nil
 		}
 
+		onConnected := c.onConnected
+		c.onConnected = nil
 		c.mux.Unlock()
+		if onConnected != nil {
+			// closed before the connect completed (dial timeout, Close,
+			// Stop), the dial callback must still get its result.
+			errConnect := err
+			if errConnect == nil {
+				errConnect = net.ErrClosed
+			}
+			onConnected(c, errConnect)
+		}
 		return c.closeWithErrorWithoutLock(err)
 	}
 	c.mux.Unlock()
 	return nil
+}
+
+// handleConnected is called by the poller when a dialing Conn becomes
+// writable, it reports the result of the non-blocking connect to the dial
+// callback: success only if the socket is really connected.
+//
+//go:norace
+func (c *Conn) handleConnected() bool {
+	c.mux.Lock()
+	onConnected := c.onConnected
+	c.onConnected = nil
+	closed := c.closed
+	c.mux.Unlock()
+	if closed {
+		return false
+	}
+	if onConnected == nil {
+		return true
+	}
+	soErr, err := syscall.GetsockoptInt(c.fd, syscall.SOL_SOCKET, syscall.SO_ERROR)
+	if err == nil && soErr != 0 {
+		err = syscall.Errno(soErr)
+	}
+	if err != nil {
+		onConnected(c, err)
+		_ = c.closeWithError(err)
+		return false
+	}
+	onConnected(c, nil)
+	c.resetRead()
+	return true
 }
 
 //go:norace
